@@ -52,12 +52,16 @@ BOUNDS = {
               "grids": GRIDS, "pinhole_sigma": H.PINHOLE_WIDTHS, "slit_shapes": H.SLIT_SHAPES,
               "slit_magnitudes": H.SLIT_MAGS, "slit_vector": ["scalar", "per-point"],
               "q_calc": ["default", "user"], "accuracy": ACCURACIES, "sigma2d": SIG2D,
-              "models": ["sphere", "cylinder"]},
+              "models": ["sphere", "cylinder"],
+              "storage_order": "descending / rotated (cyclic shift n//3) / interleaved (two banks) against ascending, span 200: "
+                               "pinhole and slit families with n in (2, 3, 10) (user q_calc for n = 10), every 2-D pixel list, "
+                               "every DirectModel data kind"},
     "thorough": {"n": [1, 2, 3, 4, 10, 30, 100, 500], "first_q": "1e-4, 1e-2 (x seed factor)", "span": H.SPAN,
                  "grids": GRIDS, "pinhole_sigma": H.PINHOLE_WIDTHS, "slit_shapes": H.SLIT_SHAPES,
                  "slit_magnitudes": H.SLIT_MAGS, "slit_vector": ["scalar", "per-point"],
                  "q_calc": ["default", "user"], "accuracy": ACCURACIES, "sigma2d": SIG2D,
-                 "models": ["sphere", "cylinder"]},
+                 "models": ["sphere", "cylinder"],
+                 "storage_order": "as quick with n in (2, 3, 4, 10, 30, 100) (user q_calc for n <= 30)"},
 }
 CASE_TIMEOUT = 300
 
@@ -93,10 +97,28 @@ def cases(ctx):
                             for mag in (H.SLIT_MAGS if shape != "zero" else ["small"]):
                                 out.append({"kind": "slit", "grid": g, "n": n, "q0": q0, "shape": shape,
                                             "mag": mag, "per": per, "qcalc": mode})
+    # storage order: the same points (with their own widths) stored descending / rotated / interleaved, span 200
+    for q0 in _q0s(ctx):
+        for n in ns:
+            for g in (GRIDS if n > 2 else ["linear"]):
+                if n >= (100 if ctx.quick else 500):
+                    continue                      # quick: n in (2, 3, 10); thorough: n in (2, 3, 4, 10, 30, 100)
+                for order in H.distinct_orders(n):
+                    for mode in (("default", "user") if n == 10 or (not ctx.quick and n <= 30) else ("default",)):
+                        for w in H.PINHOLE_WIDTHS:
+                            out.append({"kind": "pinhole", "grid": g, "n": n, "q0": q0, "width": w, "qcalc": mode,
+                                        "order": order, "span": H.ORDER_SPAN})
+                        for per in (False, True):
+                            for shape in H.SLIT_SHAPES:
+                                for mag in (H.SLIT_MAGS if shape != "zero" else ["small"]):
+                                    out.append({"kind": "slit", "grid": g, "n": n, "q0": q0, "shape": shape, "mag": mag,
+                                                "per": per, "qcalc": mode, "order": order, "span": H.ORDER_SPAN})
     for q0 in _q0s(ctx):
         for acc in ACCURACIES:
             for sig in SIG2D:
                 out.append({"kind": "p2d", "acc": acc, "sig": sig, "q0": q0 * 10})
+                for order in H.ORDERS[1:]:
+                    out.append({"kind": "p2d", "acc": acc, "sig": sig, "q0": q0 * 10, "order": order})
     for what in ("perfect", "pinhole", "pinhole-mixed", "slit-length", "slit-both", "slit-width", "slit-zero"):
         for q0 in _q0s(ctx):
             out.append({"kind": "linear", "what": what, "q0": q0 * 10})
@@ -107,6 +129,9 @@ def cases(ctx):
         for sel in ("all", "masked"):
             for q0 in _q0s(ctx):
                 out.append({"kind": "datamixin", "what": what, "select": sel, "q0": q0 * 10})
+                for order in H.ORDERS[1:]:
+                    out.append({"kind": "datamixin", "what": what, "select": sel, "q0": q0 * 10, "order": order,
+                                "span": H.ORDER_SPAN})
     return out
 
 
@@ -259,37 +284,95 @@ def _fmt(v):
     return "array([%r, %r, ..., %r] n=%d)" % (float(v[0]), float(v[1]), float(v[-1]), len(v))
 
 
+def _order_of(case, n):
+    """(order name or None, permutation, span) of a case; ascending cases keep the historical span"""
+    order = case.get("order")
+    if not order or order == "ascending":
+        return None, np.arange(n), case.get("span", H.SPAN)
+    return order, H.order_perm(order, n), case.get("span", H.ORDER_SPAN)
+
+
+def _equivariance(r, fk, desc, res, make_ascending, p, qref, order):
+    """
+    storage order: the same data points stored in another order (with their own widths) must give, point by point,
+    the same calculation grid, the same weights and the same smeared value as the ascending data set.  On the
+    unchanged tree q_calc and the weight matrix are bit-identical (q is sorted before it is extended; every column
+    depends on its own point); the smeared value is a BLAS dot product whose last bit depends on the column position,
+    so it is compared to the rounding tolerance of the column sums (1e-13 + 4 eps n_calc, relative).
+    """
+    J = Judge(r, dict(fk, order=order), desc)
+    ref = _construct(r, dict(fk, order="ascending"), desc + " [same points stored ascending]", make_ascending)
+    if ref is None:
+        return
+    qc, qa = np.asarray(res.q_calc, float), np.asarray(ref.q_calc, float)
+    if qc.shape != qa.shape or not np.array_equal(qc, qa):
+        J.bad("storage-order", "q_calc depends on the storage order: %d points %r..%r, the same data stored ascending "
+              "give %d points %r..%r" % (len(qc), qc.min() if len(qc) else None, qc.max() if len(qc) else None,
+                                         len(qa), qa.min(), qa.max()), what="q_calc")
+    else:
+        W, Wa = np.asarray(res.weight_matrix), np.asarray(ref.weight_matrix)
+        th = _theory(qa, qref)
+        with np.errstate(all="ignore"):
+            got, want = np.asarray(res.apply(th), float), np.asarray(ref.apply(th), float)[p]
+        if W.shape != Wa[:, p].shape or not np.array_equal(W, Wa[:, p]):
+            k = int(np.argmax(np.any(W != Wa[:, p], axis=0))) if W.shape == Wa[:, p].shape else 0
+            J.bad("storage-order", "weights of stored point %d (ascending index %d) differ from those of the same point in "
+                  "the ascending data set" % (k, p[k]), what="weights")
+        elif got.shape != want.shape or np.any(~(np.abs(got - want) <= (1e-13 + 4 * H.EPS * len(qa)) * np.abs(want))):
+            k = int(np.nanargmax(np.abs(got - want))) if got.shape == want.shape else 0
+            J.bad("storage-order", "smeared value of stored point %d is %r, the same point in the ascending data set "
+                  "gives %r" % (k, got[k] if got.shape == want.shape else got.shape, want[k]), what="apply")
+    r.ok(nt=len(p), n=len(p), outcome="order:%s" % ("ok" if not J.failed else "FAILED"), trans=1,
+         branches=["order:" + order])
+
+
 def run_pinhole(case, ctx, r):
     from sasmodels import resolution
-    q = H.qgrid(case["grid"], case["n"], case["q0"])
-    sig = H.pinhole_sigma(case["width"], q)
+    order, p, span = _order_of(case, case["n"])
+    qa = H.qgrid(case["grid"], case["n"], case["q0"], span)
+    siga = H.pinhole_sigma(case["width"], qa)
+    q, sig = qa[p], siga[p]                  # widths travel with their points
     n = len(q)
     fk = {"class": "Pinhole1D", "width": case["width"], "qcalc": case["qcalc"]}
+    if order:
+        fk["order"] = order
     qcalc = None if case["qcalc"] == "default" else _user_grid_linear(q, sig, n)
-    desc = ("Pinhole1D(q=%s(q0=%r, n=%d), q_width=<%s> %s, q_calc=%s)"
-            % (case["grid"], case["q0"], n, case["width"], _fmt(sig), "None" if qcalc is None else _fmt(qcalc)))
+    desc = ("Pinhole1D(q=%s(q0=%r, n=%d%s), q_width=<%s> %s, q_calc=%s)"
+            % (case["grid"], case["q0"], n, ", span %g, stored %s" % (span, order) if order else "", case["width"],
+               _fmt(sig), "None" if qcalc is None else _fmt(qcalc)))
     res = _construct(r, fk, desc, lambda: resolution.Pinhole1D(q.copy(), sig.copy(), q_calc=qcalc))
     if res is None:
         return
     windows = [H.pinhole_window(q[i], sig[i]) for i in range(n)]
     _judge_matrix(r, fk, desc, res, q, sig == 0, windows, np.zeros(n), case["q0"])
     r.branch("pinhole:" + case["width"])
+    if order:
+        qcalc_a = None if qcalc is None else _user_grid_linear(qa, siga, n)
+        _equivariance(r, fk, desc, res, lambda: resolution.Pinhole1D(qa.copy(), siga.copy(), q_calc=qcalc_a), p,
+                      case["q0"], order)
 
 
 def run_slit(case, ctx, r):
     from sasmodels import resolution
-    q = H.qgrid(case["grid"], case["n"], case["q0"])
-    n = len(q)
-    L, W = H.slit_LW(case["shape"], case["mag"], case["per"], q)
+    order, p, span = _order_of(case, case["n"])
+    qa = H.qgrid(case["grid"], case["n"], case["q0"], span)
+    n = len(qa)
+    La, Wa = H.slit_LW(case["shape"], case["mag"], case["per"], qa)      # scalars refer to the ascending set
+    q = qa[p]
+    L = La if np.isscalar(La) else La[p]
+    W = Wa if np.isscalar(Wa) else Wa[p]
     Lv, Wv = H.as_vec(L, n), H.as_vec(W, n)
     fk = {"class": "Slit1D", "shape": case["shape"], "qcalc": case["qcalc"]}
+    if order:
+        fk["order"] = order
     windows = [H.slit_window(q[i], Lv[i], Wv[i]) for i in range(n)]
     lo_all = min(w[0] for w in windows)
     hi_all = max(w[1] for w in windows)
     qcalc = None if case["qcalc"] == "default" else _user_grid_geometric(q, lo_all, hi_all, n)
-    desc = ("Slit1D(q=%s(q0=%r, n=%d), q_length=%s, q_width=%s, q_calc=%s) [%s/%s/%s]"
-            % (case["grid"], case["q0"], n, _fmt(L), _fmt(W), "None" if qcalc is None else _fmt(qcalc),
-               case["shape"], case["mag"], "per-point" if case["per"] else "scalar"))
+    desc = ("Slit1D(q=%s(q0=%r, n=%d%s), q_length=%s, q_width=%s, q_calc=%s) [%s/%s/%s]"
+            % (case["grid"], case["q0"], n, ", span %g, stored %s" % (span, order) if order else "", _fmt(L), _fmt(W),
+               "None" if qcalc is None else _fmt(qcalc), case["shape"], case["mag"],
+               "per-point" if case["per"] else "scalar"))
     res = _construct(r, fk, desc,
                      lambda: resolution.Slit1D(q.copy(), q_length=L if np.isscalar(L) else L.copy(),
                                                q_width=W if np.isscalar(W) else W.copy(), q_calc=qcalc))
@@ -315,6 +398,12 @@ def run_slit(case, ctx, r):
     _judge_matrix(r, fk, desc, res, q, (Lv == 0) & (Wv == 0), windows, allowed, case["q0"], cancel)
     r.branch("slit:" + case["shape"])
     r.branch("slit-mag:" + case["mag"])
+    if order:
+        qcalc_a = None if qcalc is None else _user_grid_geometric(qa, lo_all, hi_all, n)
+        _equivariance(r, fk, desc, res,
+                      lambda: resolution.Slit1D(qa.copy(), q_length=La if np.isscalar(La) else La.copy(),
+                                                q_width=Wa if np.isscalar(Wa) else Wa.copy(), q_calc=qcalc_a),
+                      p, case["q0"], order)
 
 
 # ----------------------------------------------------------------------------------------------
@@ -368,13 +457,18 @@ def _points2d(q0):
 def run_p2d(case, ctx, r):
     from sasmodels import resolution2d
     from sasmodels.data import Data2D
-    qx, qy = _points2d(case["q0"])
-    qr = np.sqrt(qx ** 2 + qy ** 2)
-    spar, sperp = _sig2d(case["sig"], qr)
+    qx_a, qy_a = _points2d(case["q0"])
+    qr_a = np.sqrt(qx_a ** 2 + qy_a ** 2)
+    spar_a, sperp_a = _sig2d(case["sig"], qr_a)
+    order, perm, _ = _order_of(case, len(qx_a))
+    qx, qy, qr, spar, sperp = qx_a[perm], qy_a[perm], qr_a[perm], spar_a[perm], sperp_a[perm]
     n = len(qx)
     fk = {"class": "Pinhole2D", "sigma": case["sig"], "accuracy": case["acc"]}
-    desc = ("Pinhole2D(Data2D(x=ring(q0=%r and 7*q0; directions %s deg), dx=<%s> %s, dy=%s), accuracy=%r)"
-            % (case["q0"], DIRS, case["sig"], _fmt(spar), _fmt(sperp), case["acc"]))
+    if order:
+        fk["order"] = order
+    desc = ("Pinhole2D(Data2D(x=ring(q0=%r and 7*q0; directions %s deg%s), dx=<%s> %s, dy=%s), accuracy=%r)"
+            % (case["q0"], DIRS, "; pixel list stored %s" % order if order else "", case["sig"], _fmt(spar), _fmt(sperp),
+               case["acc"]))
 
     def make():
         data = Data2D(x=qx.copy(), y=qy.copy(), dx=spar.copy(), dy=sperp.copy())
@@ -461,6 +555,24 @@ def run_p2d(case, ctx, r):
          branches=sorted(br) + ["p2d:" + case["acc"]])
     if not J.failed and not r.samples:
         r.sample({"call": desc, "bins_per_point": int(nb), "weights": [float(v) for v in w[:4]]})
+    if order:
+        def make_a():
+            d = Data2D(x=qx_a.copy(), y=qy_a.copy(), dx=spar_a.copy(), dy=sperp_a.copy())
+            return resolution2d.Pinhole2D(data=d, index=None, nsigma=3.0, accuracy=case["acc"])
+        ref = _construct(r, dict(fk, order="ascending"), desc + " [original pixel order]", make_a)
+        if ref is not None:
+            J2 = Judge(r, fk, desc)
+            ax, ay = [np.asarray(v, float).reshape(nb, n) for v in ref.q_calc]
+            if not (np.array_equal(cx, ax[:, perm]) and np.array_equal(cy, ay[:, perm])):
+                J2.bad("storage-order", "the sampling cloud of a pixel depends on its position in the pixel list", what="q_calc")
+            else:
+                with np.errstate(all="ignore"):
+                    want = np.asarray(ref.apply(_theory(np.sqrt(ax ** 2 + ay ** 2), case["q0"]).flatten()), float)[perm]
+                if sm.shape != want.shape or np.any(~(np.abs(sm - want) <= 1e-13 * np.abs(want))):
+                    k = int(np.nanargmax(np.abs(sm - want))) if sm.shape == want.shape else 0
+                    J2.bad("storage-order", "smeared value of stored pixel %d is %r, the same pixel in the original list "
+                           "gives %r" % (k, sm[k], want[k]), what="apply")
+            r.ok(nt=n, n=n, outcome="order-p2d", trans=1, branches=["order:" + order])
 
 
 # ----------------------------------------------------------------------------------------------
@@ -592,19 +704,22 @@ def run_datamixin(case, ctx, r):
     what, sel, q0 = case["what"], case["select"], case["q0"]
     fk = {"class": "DirectModel", "what": what, "select": sel, "qcalc": "default"}
     two_d = what.startswith("2d")
+    order, perm, span = _order_of(case, 24 if two_d else 14)
+    if order:
+        fk["order"] = order
     J = None
     if not two_d:
         model = build.model("sphere")
-        q = H.qgrid("log", 14, q0)
+        q = H.qgrid("log", 14, q0, span)          # ascending; stored in the requested order below
         n = len(q)
         keep = np.ones(n, bool)
-        data = Data1D(x=q.copy())
-        data.dxl = data.dxw = None
+        mask = None
+        qlim = None
         if sel == "masked":
-            data.mask = np.zeros(n, int)
-            data.mask[[2, 7]] = 1
-            data.qmin, data.qmax = q[1], q[-2]
-            keep = (q >= q[1]) & (q <= q[-2]) & (data.mask == 0)
+            mask = np.zeros(n, int)
+            mask[[2, 7]] = 1
+            qlim = (q[1], q[-2])
+            keep = (q >= q[1]) & (q <= q[-2]) & (mask == 0)
         dx = dxl = dxw = None
         if what == "dx-zero":
             dx = np.zeros(n)
@@ -626,12 +741,27 @@ def run_datamixin(case, ctx, r):
         elif what == "slit-mixed":
             dxl = np.where(np.arange(n) % 2 == 0, 0.0, 0.9 * q[4])
             dxw = np.where(np.arange(n) % 3 == 0, 0.2 * q[1], 0.0)
-        data.dx = None if dx is None else dx.copy()
-        data.dxl = None if dxl is None else dxl.copy()
-        data.dxw = None if dxw is None else dxw.copy()
+        asc = (q, keep, dx, dxl, dxw)          # the ascending arrays; the names below are rebound to the stored order
+
+        def make_data(pp):
+            q_, _, dx_, dxl_, dxw_ = asc
+            d = Data1D(x=q_[pp].copy())
+            d.dxl = d.dxw = None
+            if mask is not None:
+                d.mask = mask[pp].copy()
+                d.qmin, d.qmax = qlim
+            d.dx = None if dx_ is None else dx_[pp].copy()
+            d.dxl = None if dxl_ is None else dxl_[pp].copy()
+            d.dxw = None if dxw_ is None else dxw_[pp].copy()
+            return d
+        data = make_data(perm)
+        # from here on: the arrays as stored (every per-point width travels with its point)
+        q, keep = q[perm], keep[perm]
+        dx, dxl, dxw = [None if v is None else v[perm] for v in (dx, dxl, dxw)]
         qs = q[keep]
-        desc = ("DirectModel(Data1D(x=log(q0=%r, n=14), %s%s), sphere).resolution"
-                % (q0, what, ", mask on points 2,7 and qmin/qmax excluding the end points" if sel == "masked" else ""))
+        desc = ("DirectModel(Data1D(x=log(q0=%r, n=14%s), %s%s), sphere).resolution"
+                % (q0, ", span %g, stored %s" % (span, order) if order else "", what,
+                   ", mask on ascending points 2,7 and qmin/qmax excluding the end points" if sel == "masked" else ""))
         calc = _construct(r, fk, desc, lambda: DirectModel(data, model, cutoff=0.0))
         if calc is None:
             return
@@ -693,6 +823,24 @@ def run_datamixin(case, ctx, r):
                       % (i, qs[i], windows[i][0], windows[i][1], got_name), end="both")
             r.ok(nt=int(np.sum(~zero)), n=len(qs), outcome="datamixin-perfect")
         r.branch("datamixin:" + what)
+        if order:
+            # storage order: every selected point gets the value it gets in the ascending data set, bit for bit
+            qa, keepa = asc[0], asc[1]
+            ref = _construct(r, dict(fk, order="ascending"), desc + " [stored ascending]",
+                             lambda: DirectModel(make_data(np.arange(n)), model, cutoff=0.0))
+            if ref is not None:
+                with warnings.catch_warnings():
+                    warnings.simplefilter("ignore")
+                    want_a = np.asarray(ref(**pars), float)
+                rank = np.cumsum(keepa) - 1                      # ascending index -> position among the selected
+                sel_idx = perm[np.nonzero(keep)[0]]              # ascending indices of the selected stored points
+                want_p = want_a[rank[sel_idx]]
+                if got.shape != want_p.shape or np.any(~(np.abs(got - want_p) <= 1e-12 * np.abs(want_p))):
+                    k = int(np.nanargmax(np.abs(got - want_p))) if got.shape == want_p.shape else 0
+                    J.bad("storage-order", "value at selected stored point %d (q=%r) is %r; the same point in the data set "
+                          "stored ascending gives %r" % (k, qs[k], got[k] if got.shape == want_p.shape else got.shape,
+                                                         want_p[k]), what="apply")
+                r.ok(nt=len(qs), n=len(qs), outcome="order-datamixin", trans=1, branches=["order:" + order])
         return
     # ---- 2-D
     model = build.model("cylinder")
@@ -708,17 +856,29 @@ def run_datamixin(case, ctx, r):
         a, b = _sig2d("zero", qrr)
     else:
         a = b = None
-    data = Data2D(x=qx.copy(), y=qy.copy(), dx=None if a is None else a.copy(), dy=None if b is None else b.copy())
-    keep = np.ones(n, bool)
+    mask2 = np.zeros(n, bool)
     if sel == "masked":
-        data.mask = np.zeros(n, bool)
-        data.mask[[1, 5, 13]] = True
-        data.qmin, data.qmax = 0.5 * q0, 5.0 * q0       # excludes the outer ring (7 q0)
-        keep = (~data.mask) & (qrr >= data.qmin) & (qrr <= data.qmax)
+        mask2[[1, 5, 13]] = True
     acc = "med"
-    data.accuracy = acc
-    desc = ("DirectModel(Data2D(rings q0=%r and 7 q0, %s%s, accuracy=%r), cylinder).resolution"
-            % (q0, what, ", mask on points 1,5,13 and qmax excluding the outer ring" if sel == "masked" else "", acc))
+
+    asc2 = (qx, qy, a, b)                      # original pixel order; the names below are rebound to the stored order
+
+    def make_data2(pp):
+        qx_, qy_, a_, b_ = asc2
+        d = Data2D(x=qx_[pp].copy(), y=qy_[pp].copy(), dx=None if a_ is None else a_[pp].copy(),
+                   dy=None if b_ is None else b_[pp].copy())
+        if sel == "masked":
+            d.mask = mask2[pp].copy()
+            d.qmin, d.qmax = 0.5 * q0, 5.0 * q0       # excludes the outer ring (7 q0)
+        d.accuracy = acc
+        return d
+    keep_a = np.ones(n, bool) if sel != "masked" else (~mask2) & (qrr >= 0.5 * q0) & (qrr <= 5.0 * q0)
+    data = make_data2(perm)
+    qx, qy, qrr, keep = qx[perm], qy[perm], qrr[perm], keep_a[perm]
+    a, b = [None if v is None else v[perm] for v in (a, b)]
+    desc = ("DirectModel(Data2D(rings q0=%r and 7 q0%s, %s%s, accuracy=%r), cylinder).resolution"
+            % (q0, ", pixel list stored %s" % order if order else "", what,
+               ", mask on points 1,5,13 and qmax excluding the outer ring" if sel == "masked" else "", acc))
     calc = _construct(r, fk, desc, lambda: DirectModel(data, model, cutoff=0.0))
     if calc is None:
         return
@@ -761,6 +921,20 @@ def run_datamixin(case, ctx, r):
                       % (i, sa[i], sb[i], ext[i], need[i]))
     r.ok(nt=int(keep.sum()) if a is not None else 0, n=int(keep.sum()), outcome="datamixin-2d", trans=2)
     r.branch("datamixin:" + what)
+    if order and not J.failed:
+        ref2 = _construct(r, dict(fk, order="ascending"), desc + " [original pixel order]",
+                          lambda: DirectModel(make_data2(np.arange(n)), model, cutoff=0.0))
+        if ref2 is not None:
+            with warnings.catch_warnings():
+                warnings.simplefilter("ignore")
+                want_a = np.asarray(ref2(**pars), float)
+            rank = np.cumsum(keep_a) - 1
+            want_p = want_a[rank[perm[np.nonzero(keep)[0]]]]
+            if got.shape != want_p.shape or np.any(~(np.abs(got - want_p) <= 1e-12 * np.abs(want_p))):
+                k = int(np.nanargmax(np.abs(got - want_p))) if got.shape == want_p.shape else 0
+                J.bad("storage-order", "value at selected stored pixel %d is %r; the same pixel in the original pixel order "
+                      "gives %r" % (k, got[k] if got.shape == want_p.shape else got.shape, want_p[k]), what="apply")
+            r.ok(nt=int(keep.sum()), n=int(keep.sum()), outcome="order-datamixin2d", trans=1, branches=["order:" + order])
 
 
 def run_case(case, ctx):
@@ -799,6 +973,8 @@ def finish(ctx, report):
     for w in ("perfect", "pinhole", "slit-length", "slit-both"):
         report.require("linear:" + w, 1, "DirectModel linearity")
     report.require("linear:2d-par>perp", 4, "DirectModel 2-D linearity")
+    for o in H.ORDERS[1:]:
+        report.require("order:" + o, 300, "the same data stored in another order (equivariance against ascending storage)")
     for w in DATA_KINDS:
         report.require("datamixin:" + w, 4, "resolution built by DirectModel compared with the data's own widths")
     if report.nt < 1000:
